@@ -36,15 +36,17 @@ CONSTANTS HSeq,      \* the headers, as a sequence (fixes the include order), e.
           MaxEdits, MaxBuilds,   \* bounds on a behaviour
           Variant,   \* "found" | "tagged" | "chained"
           Fuel,
-          MaxHist    \* length of the generated behaviours (generation runs)
+          MaxHist,   \* length of the generated behaviours (generation runs)
+          Styles     \* include delimiter styles a behaviour may use (see Delim)
 
-VARIABLES content,   \* header -> [val, inc]
+VARIABLES style,     \* the delimiter style of this behaviour's #include lines (fixed per behaviour)
+          content,   \* header -> [val, inc]
           dirs,      \* key -> [deps, bin]
           last,      \* outcome of the last Build
           edits, builds,
           hist
 
-vars == <<content, dirs, last, edits, builds, hist>>
+vars == <<style, content, dirs, last, edits, builds, hist>>
 
 Headers == {HSeq[i] : i \in 1..Len(HSeq)}
 Idx(h) == CHOOSE i \in 1..Len(HSeq) : HSeq[i] = h
@@ -66,6 +68,17 @@ KernelValue(C) == LET r == InOrder(Root) IN Flatten([i \in 1..Len(r) |-> Expand(
 RECURSIVE Reach(_, _)
 Reach(C, S) == LET T == S \cup UNION {C[h].inc : h \in S} IN IF T = S THEN S ELSE Reach(C, T)
 Included(C) == Reach(C, Root)
+
+\* The delimiter of an #include line, "q" for "x.h" and "a" for <x.h>, is a dimension of every include edge
+\* (from the kernel source or from a header, to a header).  The OKL preprocessor expands a header it finds
+\* through okl/include_paths whichever delimiter is used, so KernelValue does not depend on it -- and neither
+\* may the dependency tracking.
+Delim(st, from, to) ==
+  CASE st = "quoted" -> "q"
+    [] st = "angle"  -> "a"
+    [] st = "mixed"  -> IF from = "kernel" THEN "a" ELSE "q"    \* kernel's own includes <>, header to header ""
+    [] OTHER         -> IF from = "kernel" THEN "q" ELSE "a"    \* "mixed2": the other way round
+DelimTable == [from \in Headers \cup {"kernel"} |-> [to \in Headers |-> Delim(style, from, to)]]
 
 ---------------------------------------------------------------------------
 (* keys *)
@@ -95,7 +108,8 @@ Resolve(k, visited, fuel) ==
 
 ---------------------------------------------------------------------------
 InitContent == [h \in Headers |-> [val |-> InitVal[h], inc |-> {}]]
-Init == /\ content = InitContent
+Init == /\ style \in Styles
+        /\ content = InitContent
         /\ dirs = <<>>
         /\ last = [outcome |-> "none"]
         /\ edits = 0 /\ builds = 0
@@ -104,7 +118,7 @@ Init == /\ content = InitContent
 Edited(a, h, x) ==
   /\ edits' = edits + 1
   /\ hist' = Append(hist, [a |-> a, h |-> h, x |-> x, text |-> content'[h]])
-  /\ UNCHANGED <<dirs, last, builds>>
+  /\ UNCHANGED <<style, dirs, last, builds>>
 
 \* content change (includes going back to a value the header had before)
 SetVal(h, v) ==
@@ -137,7 +151,7 @@ Build ==
                 /\ last' = [outcome |-> "ran", act |-> "compiled", val |-> now, exp |-> now]
         /\ hist' = Append(hist, [a |-> "build", exp |-> now])
   /\ builds' = builds + 1
-  /\ UNCHANGED <<content, edits>>
+  /\ UNCHANGED <<style, content, edits>>
 
 Next == \/ \E h \in Headers, v \in Vals : SetVal(h, v)
         \/ \E h \in Headers, g \in Headers : AddInclude(h, g) \/ RemoveInclude(h, g)
@@ -153,11 +167,11 @@ TypeOK == /\ \A h \in Headers : content[h].val \in Vals /\ content[h].inc \subse
 NoStaleRun == last.outcome = "ran" => last.val = last.exp
 \* every build terminates (the key walk never returns to a key it has visited)
 ResolveTerminates == last.outcome # "diverged"
-View == <<content, dirs, last, edits, builds>>
+View == <<style, content, dirs, last, edits, builds>>
 \* generation: every behaviour of MaxHist steps is printed once and cut there (the replay drops the
 \* edits after the last build, so all shorter histories that end in a build are covered too)
 Emit == Len(hist) < MaxHist
-        \/ (PrintT(<<"B", ToJson([root |-> InOrder(Root), init |-> InitContent, steps |-> hist])>>) /\ FALSE)
+        \/ (PrintT(<<"B", ToJson([root |-> InOrder(Root), init |-> InitContent, delims |-> DelimTable, style |-> style, steps |-> hist])>>) /\ FALSE)
 \* directed generation, the "join" family: histories in which a header that the kernel source does not
 \* include JOINS the include graph through an edit of an already included header (directly, or behind
 \* another joining header: h1 -> h2 -> h3), is built, and is then edited / leaves / rejoins, with a build
@@ -181,10 +195,10 @@ JoinShape ==
                [] builds = 3 -> t = 1 /\ \/ s.a = "setval" /\ s.h \in NonRoot \cap Included(content)
                                          \/ s.a = "addinc" /\ hist[n - 2].a = "rminc"
                [] OTHER -> FALSE
-EmitJoin == JoinShape /\ (builds < 4 \/ (PrintT(<<"B", ToJson([root |-> InOrder(Root), init |-> InitContent, steps |-> hist])>>) /\ FALSE))
+EmitJoin == JoinShape /\ (builds < 4 \/ (PrintT(<<"B", ToJson([root |-> InOrder(Root), init |-> InitContent, delims |-> DelimTable, style |-> style, steps |-> hist])>>) /\ FALSE))
 \* directed generation: with Variant = "found" every shortest history on which the fold of the code as
 \* found diverges is printed (and cut); the replay runs them on the real code (prediction: exp, as always)
 EmitDiverged == IF last.outcome = "diverged"
-                THEN PrintT(<<"B", ToJson([root |-> InOrder(Root), init |-> InitContent, steps |-> hist])>>) /\ FALSE
+                THEN PrintT(<<"B", ToJson([root |-> InOrder(Root), init |-> InitContent, delims |-> DelimTable, style |-> style, steps |-> hist])>>) /\ FALSE
                 ELSE Len(hist) < MaxHist
 =============================================================================
